@@ -95,6 +95,13 @@ def ref_lookup(parsed, tags, default_range, default_tag, default_is_none):
     return 0
 
 
+def want_with_default_kind(want, dkind):
+    """ref_* say 0 for "`default` is the answer"; a callable default whose call raises makes that the exception."""
+    if want == 0 and not isinstance(want, str) and dkind in DKINDS_RAISING:
+        return Err(DKINDS_RAISING[dkind])
+    return want
+
+
 def ref_lookup_nohdr(default_tag, default_is_none):
     if default_tag is None and default_is_none:
         return Err("TypeError")
@@ -210,6 +217,24 @@ class _CallableObject:
 
 
 DKINDS = ["none", "value", "callable", "callable-object", "zero", "empty", "false"]
+# callables whose call fails: "default (called if callable)" means the failure of the call is the outcome
+DKINDS_RAISING = {"raises-TypeError": "TypeError", "raises-ValueError": "ValueError", "needs-argument": "TypeError"}
+
+
+def _raises_type_error():
+    return len(None)                     # TypeError from the BODY of the callable
+
+
+def _raises_value_error():
+    raise ValueError("inside the callable")
+
+
+def _needs_argument(x):
+    return x
+
+
+_RAISING_OBJECTS = {"raises-TypeError": _raises_type_error, "raises-ValueError": _raises_value_error,
+                    "needs-argument": _needs_argument}
 _DEFAULT_OBJECTS = {"value": SENTINEL, "zero": 0, "empty": _Tag(""), "false": False}
 
 
@@ -222,6 +247,8 @@ def mk_default(kind):
         return lambda: SENTINEL
     if kind == "callable-object":
         return _CallableObject()
+    if kind in _RAISING_OBJECTS:
+        return _RAISING_OBJECTS[kind]
     raise ValueError(kind)
 
 
@@ -270,6 +297,9 @@ def impl_lookup_raw(h, tags, dr, dt, dkind, shape="kw"):
     if dkind in ("callable", "callable-object"):
         if r is SENTINEL:
             return 0, r
+    elif dkind in DKINDS_RAISING:
+        if r is d:
+            return "returned-the-callable-itself", r
     elif r is d:
         return 0, r              # `default` itself (None for dkind none)
     if isinstance(r, str):
@@ -337,7 +367,7 @@ ODD_RANGES = ["", "-", "a-", "-a", "en--gb", "en-_-x", "en-\xe9-x", "en-\xb2-x",
               "en-x", "*", "*", "*-a", "en-*", "1-2", "a-b-c-d-e-f"]
 
 
-def rand_case_inputs(rng, allow_empty_tag=True, pool=None, wide=False):
+def rand_case_inputs(rng, allow_empty_tag=True, pool=None, wide=False, raising=False):
     if pool is None:
         pool = [rand_range(rng) for _ in range(rng.randrange(1, 5))]
         if rng.random() < 0.3:
@@ -394,6 +424,8 @@ def rand_case_inputs(rng, allow_empty_tag=True, pool=None, wide=False):
             dr = rng.choice(WIDE)
         if rng.random() < 0.3:
             dt = rng.choice(WIDE)
+    if raising and rng.random() < 0.12:
+        dkind = rng.choice(sorted(DKINDS_RAISING))
     return elems, tags, dr, dt, dkind
 
 
@@ -703,17 +735,7 @@ def oracle_outside(case):
                        "element the statement gives %r" % (case["op"], tags2, text, got, want))
     elif sub == "default":
         dk = case["dkind"]
-        if dk == "raises-TypeError":
-            def d():
-                raise TypeError("inside the callable")
-        elif dk == "raises-ValueError":
-            def d():
-                raise ValueError("inside the callable")
-        elif dk == "needs-argument":
-            def d(x):
-                return x
-        elif dk == "class":
-            d = list
+        d = list                                # a class is a callable: called, `[]` comes back
         hit = ref_lookup(parsed, tags, case["default_range"], case["default_tag"], False)
         try:
             r = h.lookup(tags, default_range=case["default_range"], default_tag=case["default_tag"], default=d)
@@ -722,12 +744,8 @@ def oracle_outside(case):
             got = Err(type(e).__name__)
         if hit != 0:
             ok = got == hit                      # `default` is not reached
-        elif dk == "raises-ValueError":
-            ok = got == Err("ValueError")
-        elif dk == "class":
-            ok = got == []
         else:
-            ok = got is d or got == Err("TypeError")   # documented: "if default is not a callable the value itself"
+            ok = got == []
         if not ok:
             msg = ("outside:odd-default-callable", "lookup(%r, %r, %r, default=<%s>) for header %r gives %r (statement's answer "
                    "before `default`: %r)" % (tags, case["default_range"], case["default_tag"], dk, text, got, hit))
@@ -773,7 +791,7 @@ def rand_outside(rng):
         base["at"] = rng.randrange(8)
     elif sub == "default":
         base["op"] = "lookup"
-        base["dkind"] = rng.choice(["raises-TypeError", "raises-ValueError", "needs-argument", "class"])
+        base["dkind"] = "class"
     else:
         base["op"] = "lookup"
         base["bytes_range"] = rng.random() < 0.5
@@ -841,8 +859,14 @@ def oracle_case(case):
             dr, dt, dk = case["default_range"], case["default_tag"], case["default"]
             dt = None if dt is None else _Tag(dt)
             (got, raw), want = impl_lookup_raw(h, tags, dr, dt, dk, shape or "kw"), ref_lookup(parsed, tags, dr, dt, dk == "none")
+            want = want_with_default_kind(want, dk)
         wantc = str(want) if isinstance(want, str) else want
         if got != wantc:
+            if got == "returned-the-callable-itself":
+                return ("lookup:callable-default-typeerror-swallowed",
+                        "AcceptLanguageValidHeader(%r).lookup(%r, default_range=%r, default_tag=%r, default=<callable: %s>) "
+                        "returns the callable object itself: it was called, the TypeError of the call was swallowed; "
+                        "expected %r" % (text, case["tags"], dr, dt, dk, wantc))
             if got == "" and "" in tags:
                 # the specific defect "an offered '' is returned once a range has been truncated away": without the
                 # empty offers the implementation agrees with the statement
@@ -873,7 +897,12 @@ def oracle_case(case):
         dr, dt, dk = case["default_range"], case["default_tag"], case["default"]
         dt = None if dt is None else _Tag(dt)
         (got, raw), want = impl_lookup_raw(h, tags, dr, dt, dk, case.get("lshape") or "kw"), ref_lookup_nohdr(dt, dk == "none")
+        want = want_with_default_kind(want, dk)
         wantc = str(want) if isinstance(want, str) else want
+        if got == "returned-the-callable-itself" and got != wantc:
+            return ("lookup:callable-default-typeerror-swallowed",
+                    "%s(%r)[%s].lookup(%r, %r, %r, default=<callable: %s>) returns the callable object itself: it was called, "
+                    "the TypeError of the call was swallowed; expected %r" % (cls, text, via, case["tags"], dr, dt, dk, wantc))
         if got != wantc or (isinstance(want, str) and raw is not want):
             return ("nohdr:lookup-cascade", "%s(%r)[%s].lookup(%r, %r, %r, <%s>) = %r, expected %r (the default_tag object itself)"
                     % (cls, text, via, case["tags"], dr, dt, dk, got, wantc))
@@ -951,7 +980,7 @@ def exhaustive_cases(depth_hdr, depth_tags, rich):
     for d in range(1, depth_tags + 1):
         tag_lists += [list(t) for t in itertools.product(tag_u, repeat=d)]
     defaults = [(None, None, "value"), ("a-b-c", None, "value"), ("A-x-c", "a", "value"), (None, "A-B", "value"),
-                ("a-b", "ab", "none")]
+                ("a-b", "ab", "none"), ("a-b", None, "raises-TypeError")]
     if rich:
         defaults += [("ab-x-y", "a-b-c", "callable"), (None, None, "none"), ("*", "a", "value"), (None, "a", "none")]
     for d in range(1, depth_hdr + 1):
@@ -1169,7 +1198,7 @@ def run(ctx):
     m = ctx.scale(25000, 500000)
     nontriv = 0
     for i in range(m):
-        elems, tags, dr, dt, dk = rand_case_inputs(r2, wide=(i % 4 == 0))
+        elems, tags, dr, dt, dk = rand_case_inputs(r2, wide=(i % 4 == 0), raising=True)
         via = r2.choice(VIAS_VALID) if i % 2 else "create"
         base = {"kind": "valid", "elems": [list(e) for e in elems], "tags": tags, "via": via, "warn_error": i % 8 == 3}
         run_oracle(ctx, "random", dict(base, op="bf", shape=r2.choice(BF_SHAPES)))
@@ -1181,7 +1210,7 @@ def run(ctx):
     m2 = ctx.scale(1500, 20000)
     for i in range(m2):
         text = r2.choice(INVALID_HEADERS + [None, None, None])
-        _, tags, dr, dt, dk = rand_case_inputs(r2, wide=(i % 4 == 0))
+        _, tags, dr, dt, dk = rand_case_inputs(r2, wide=(i % 4 == 0), raising=True)
         run_oracle(ctx, "nohdr", {"kind": "nohdr", "header": text, "tags": tags, "default_range": dr, "default_tag": dt,
                                   "default": dk, "shape": r2.choice(BF_SHAPES), "lshape": r2.choice(LK_SHAPES),
                                   "via": r2.choice([v for v in VIAS_NOHDR if v != "request-del" or text is None])})
@@ -1220,7 +1249,8 @@ def run(ctx):
         "ranges, tags and default arguments use code points < 256 (str.lower/isalpha/isdigit are modelled there)",
         "a range repeated in the header counts once in basic_filtering, with the quality and position of its first "
         "occurrence (documented webob reading, pinned by its test-suite; RFC 4647/7231 do not define repeats)",
-        "`default` is a value or a zero-argument callable that does not itself raise TypeError",
+        "`default` is modelled as a value (LDefault = 'default, called if callable'); that a callable default is really "
+        "called, and that a failure of the call is the outcome (not the callable object), is checked by the oracle only",
         "header parsing (text -> .parsed) is property C03's subject; here the model starts from .parsed and the oracle "
         "re-derives the expected .parsed from the generated elements independently",
     ]
